@@ -16,7 +16,7 @@
 (* Implementation-defined choices, fixed as the targets' ABI does: two's         *)
 (* complement, conversion to a signed type wraps, >> of negative values is       *)
 (* arithmetic, char signedness per target (Prog.charsigned).                     *)
-EXTENDS Bits, Naturals, Integers, Sequences, FiniteSets, TLC, Json, IOUtils
+EXTENDS Bits, FloatInt, Naturals, Integers, Sequences, FiniteSets, TLC, Json, IOUtils
 
 CProgs == ndJsonDeserialize(IOEnv.C_PROGS)
 
@@ -81,25 +81,8 @@ MinOf(n) == Canon(n, Shl(One, WidthOf(n) - 1))
 IsFlt(t) == t.k = "f"
 IsArith(t) == IsInt(t) \/ IsFlt(t)
 Prec(n) == IF n = "float" THEN 24 ELSE 53
-RECURSIVE TzFrom(_, _), TopFrom(_, _)
-TzFrom(m, k) == IF k >= 64 THEN 64 ELSE IF BitAt(m, k) = 1 THEN k ELSE TzFrom(m, k + 1)     \* index of lowest set bit
-TopFrom(m, k) == IF k < 0 THEN -1 ELSE IF BitAt(m, k) = 1 THEN k ELSE TopFrom(m, k - 1)     \* index of highest set bit
-Representable(mag, n) == IsZero(mag) \/ (TopFrom(mag, 63) - TzFrom(mag, 0) + 1 <= Prec(n))
-FV(neg, mag) == [neg |-> neg /\ ~IsZero(mag), mag |-> mag]
-FZero == FV(FALSE, Zero)
+Representable(mag, n) == RepresentableP(mag, Prec(n))          \* FV, FAdd, FNeg, FMul, FDiv, FLt: FloatInt.tla
 FOk(n, f) == IF Representable(f.mag, n) THEN [ok |-> TRUE, t |-> [k |-> "f", n |-> n], v |-> f, bw |-> 0] ELSE [ok |-> FALSE, why |-> "inexact"]
-FAdd(a, b) ==       \* exact sum of two integral values, or overflow of the 64-bit magnitude
-  IF a.neg = b.neg THEN (LET m == Add(a.mag, b.mag) IN IF ULt(m, a.mag) THEN [ok |-> FALSE] ELSE [ok |-> TRUE, f |-> FV(a.neg, m)])
-  ELSE IF ULt(a.mag, b.mag) THEN [ok |-> TRUE, f |-> FV(b.neg, Sub(b.mag, a.mag))]
-  ELSE [ok |-> TRUE, f |-> FV(a.neg, Sub(a.mag, b.mag))]
-FNeg(a) == FV(~a.neg, a.mag)
-FMul(a, b) ==
-  IF IsZero(a.mag) \/ IsZero(b.mag) THEN [ok |-> TRUE, f |-> FZero]
-  ELSE LET p == Mul(a.mag, b.mag) IN IF UDiv(p, b.mag) # a.mag THEN [ok |-> FALSE] ELSE [ok |-> TRUE, f |-> FV(a.neg # b.neg, p)]
-FDiv(a, b) ==       \* only exact quotients
-  IF IsZero(b.mag) THEN [ok |-> FALSE] ELSE IF ~IsZero(URem(a.mag, b.mag)) THEN [ok |-> FALSE]
-  ELSE [ok |-> TRUE, f |-> FV(a.neg # b.neg, UDiv(a.mag, b.mag))]
-FLt(a, b) == IF a.neg # b.neg THEN a.neg ELSE IF a.neg THEN ULt(b.mag, a.mag) ELSE ULt(a.mag, b.mag)
 (* integer (canonical word w of type n) -> float value *)
 IntToF(n, w) == IF Signed(n) /\ SignBit(w) THEN FV(TRUE, Neg(w)) ELSE FV(FALSE, w)
 (* float value -> integer type n (6.3.1.4: undefined if the value cannot be represented) *)
